@@ -135,12 +135,14 @@ def run(ctx):
             douts = ctx.driver.run(dops)
             dists = [o["spec"] for o in douts[:n]]
             lbs = [o["lb"] for o in douts[n:]]
-            kseq = [rng.randint(1, n + 1) for _ in range(3)]
+            kseq = [rng.choice([0, rng.randint(1, n + 1), rng.randint(1, n + 1)]) for _ in range(4)]   # 0 = None
             mo = ctx.driver.run([{"op": "knn", "dists": dists, "lbs": lbs, "useLb": use_lb, "ks": kseq}])[0]
             ss_m = fresh()
             for k, ans in zip(kseq, mo["answers"]):
-                got = answer(ss_m, k)
-                model_d = [math.sqrt(a[0] // dc.SCALE) for a in ans]
+                got = answer(ss_m, k if k else None)
+                model_d = [math.inf if a[0] == "inf" else math.sqrt(a[0] // dc.SCALE) for a in ans]
+                if k == 0:
+                    res.hit("model_k_none")
                 if [d for d, _ in got] != model_d:
                     res.mismatches.append(dict(info, what="k-NN scan differs from the Lean model", ks=kseq, k=k,
                                                got=got, model=ans))
